@@ -518,6 +518,10 @@ def check_property(prop, tier, seed):
     with open(os.path.join(EVID, prop + ".json"), "w") as f:
         json.dump(ev, f, indent=1)
 
+    for sid in cfg.get("static_known", []):
+        for k in known:
+            if k["property"] == prop and k["id"] == sid:
+                known_seen.append("KNOWN-FINDING: property=%s %s %s" % (prop, k["id"], k["text"]))
     for k in known_seen:
         log(k)
     if violations:
